@@ -13,10 +13,24 @@
   * `orms_agree`        both ORMs agree (original statement; proved directly, independent of the specification)
   * `dj_sound_original_false_toOne`, `dj_sound_original_false_ns`, `sa_sound_original_false_toOne`
                         the statements WITHOUT the two extra hypotheses are false
-  Hypotheses: the schema is closed under inverses (`schemaOk`), primary keys are unique (`dbOk`), lambda bodies are two-valued on
-  the related rows (`lambdaClean`: the property quantifies over bodies over non-null child columns); NEW: the filter has a
-  value on the row (`hdef`, i.e. it is a filter over the schema; static form `relTyped`), lambda variables have no namespace
-  (`lamVarsPlain`, Lemmas/RelStrip.lean).
+  * `dj_sound_false_without_keysOk`, `sa_sound_false_without_keysOk`
+                        the soundness statements WITHOUT `keysOk` are false once a foreign key may reference a natural key
+  Hypotheses: the schema is closed under inverses (`schemaOk`), primary keys are present and unique (`dbOk`), lambda bodies are
+  two-valued on the related rows (`lambdaClean`: the property quantifies over bodies over non-null child columns); the filter
+  has a value on the row (`hdef`, i.e. it is a filter over the schema; static form `relTyped`), lambda variables have no
+  namespace (`lamVarsPlain`, Lemmas/RelStrip.lean).
+
+  NATURAL KEYS (`RelKind.toOne fk key`: src.fk = dst.key, `key` not necessarily "id"): one more hypothesis, `keysOk sch db` — the
+  key every to-one relation references is unique among the rows of its target table (NULL keys are exempt: such a row is related
+  to nothing).  Who needs what:
+    * `reverse_reaches`, `orms_agree`           `dbOk` only.  Django's back path ends in the comparison `<reached row>.pk = OuterRef("pk")`,
+                                                so what identifies the outer row is its PRIMARY key; a relation and its inverse relate the
+                                                same pairs of rows whatever the key is (`related_symm` needs no uniqueness at all).
+    * `dj_sound_*`                              `dbOk` and `keysOk`: the specification's to-one step takes THE related row (`navTo`: the first
+                                                one), the ORMs join ALL rows with that key; they coincide iff the key is unique.
+    * `sa_sound_*`                              `keysOk` only (`dbOk` was used for nothing but the uniqueness of the referenced key "id").
+  Under `schemaOk` the key of a `.toMany _ key` relation (a column of the SOURCE table) is unique as well, being the key its inverse
+  references: `keysOk_toMany`.  When every to-one relation references "id", `dbOk` implies `keysOk`: `keysOk_of_dbOk`.
 -/
 import ODataVerif.Model.OrmRel
 import ODataVerif.Spec.OrmRelSem
@@ -63,6 +77,40 @@ theorem idsOk_of_dbOk (db : DB) (hd : dbOk db = true) : IdsOk db := by
       rw [hf] at h2
       simpa using h2
 
+/-- the non-NULL values of the column `key` are pairwise different -/
+def colUnique (rows : List Row) (key : Str) : Bool :=
+  rows.all (fun r => (r.int key).isNone || (rows.filter (fun r' => r'.int key == r.int key)).length == 1)
+
+/-- referenced keys are unique: for every to-one relation `src.fk = dst.key` of the schema the rows of `dst` have pairwise
+    different non-NULL values of `key` (a row whose key is NULL is related to nothing, so any number of them is harmless) -/
+def keysOk (sch : Schema) (db : DB) : Bool :=
+  sch.all (fun rel =>
+    match rel.kind with
+    | .toOne _ key => colUnique (db.table rel.dst) key
+    | _ => true)
+
+theorem colUnique_le (rows : List Row) (key : Str) (h : colUnique rows key = true) (k : Int) :
+    (rows.filter (fun x => x.int key == some k)).length ≤ 1 := by
+  simp only [colUnique, List.all_eq_true, Bool.or_eq_true] at h
+  cases hf : rows.filter (fun x => x.int key == some k) with
+  | nil => simp
+  | cons x rest =>
+    have hx : x ∈ rows.filter (fun x => x.int key == some k) := by rw [hf]; simp
+    rw [List.mem_filter] at hx
+    have hk : x.int key = some k := by simpa using hx.2
+    have h2 := h x hx.1
+    rw [hk] at h2
+    simp only [Option.isNone_some, Bool.false_eq_true, false_or] at h2
+    rw [hf] at h2
+    simpa using h2
+
+theorem keysOk_prop (sch : Schema) (db : DB) (hk : keysOk sch db = true) : KeysOk sch db := by
+  intro rel fk key hm hkind k
+  simp only [keysOk, List.all_eq_true] at hk
+  have h := hk rel hm
+  rw [hkind] at h
+  exact colUnique_le _ _ h k
+
 theorem schOk_of_schemaOk (sch : Schema) (hs : schemaOk sch = true) : SchOk sch := by
   intro r hr
   simp only [schemaOk, Bool.and_eq_true, List.all_eq_true] at hs
@@ -81,7 +129,53 @@ theorem schOk_of_schemaOk (sch : Schema) (hs : schemaOk sch = true) : SchOk sch 
     subst this
     rw [← List.head?_filter, hf]; rfl
 
-/-- Django's back path is the inverse of the forward path -/
+/-- under `schemaOk` the key of a to-many relation (a column of its SOURCE table) is unique too: it is the key the inverse
+    to-one relation references -/
+theorem keysOk_toMany (sch : Schema) (db : DB) (hs : schemaOk sch = true) (hk : keysOk sch db = true)
+    (rel : RelDef) (hm : rel ∈ sch) (cfk key : Str) (hkind : rel.kind = .toMany cfk key) :
+    colUnique (db.table rel.src) key = true := by
+  simp only [schemaOk, Bool.and_eq_true, List.all_eq_true] at hs
+  obtain ⟨inv, hi⟩ := Option.isSome_iff_exists.mp (hs.1 rel hm)
+  obtain ⟨him, _, hdst, hkk⟩ := inverseOf_some hi
+  simp only [keysOk, List.all_eq_true] at hk
+  have h := hk inv him
+  rw [hkind] at hkk
+  cases hik : inv.kind with
+  | toOne fk key' =>
+    rw [hik] at hkk h
+    simp only at hkk h
+    rw [← hdst, ← hkk.2]; exact h
+  | toMany _ _ => rw [hik] at hkk; exact hkk.elim
+  | m2m _ _ _ => rw [hik] at hkk; exact hkk.elim
+
+/-- every to-one relation references the primary key -/
+def idKeyed (sch : Schema) : Bool :=
+  sch.all (fun rel =>
+    match rel.kind with
+    | .toOne _ key => key == "id".toList
+    | _ => true)
+
+/-- the situation before natural keys: when every foreign key references "id", `dbOk` is all that is needed -/
+theorem keysOk_of_dbOk (sch : Schema) (db : DB) (hi : idKeyed sch = true) (hd : dbOk db = true) : keysOk sch db = true := by
+  simp only [keysOk, List.all_eq_true]
+  simp only [idKeyed, List.all_eq_true] at hi
+  intro rel hm
+  have h := hi rel hm
+  cases hk : rel.kind with
+  | toOne fk key =>
+    rw [hk] at h
+    simp only [beq_iff_eq] at h
+    subst h
+    have ht := tableOk_table db hd rel.dst
+    simp only [tableOk, Bool.and_eq_true, List.all_eq_true] at ht
+    simp only [colUnique, List.all_eq_true, Bool.or_eq_true]
+    intro r hr
+    exact Or.inr (ht.2 r hr)
+  | toMany _ _ => rfl
+  | m2m _ _ _ => rfl
+
+/-- Django's back path is the inverse of the forward path.  No `keysOk`: the outer row is identified by its primary key
+    (`dbOk`), and a relation and its inverse relate the same pairs of rows whatever key the foreign key references. -/
 theorem reverse_reaches (sch : Schema) (db : DB) (hs : schemaOk sch = true) (hd : dbOk db = true)
     (root : Str) (segs back : List Str) (child : Str) (h : reverseRelationship sch root segs = some (back, child))
     (r c : Row) (pk : Int) (hr : r ∈ db.table root) (hc : c ∈ db.table child) (hpk : idOf r = some pk) :
@@ -103,16 +197,17 @@ theorem reverse_reaches (sch : Schema) (db : DB) (hs : schemaOk sch = true) (hd 
 
 /-- MAIN THEOREM (C04, Django) -/
 theorem dj_sound_partial (sch : Schema) (kindOf : Str → Option ColK) (db : DB) (hs : schemaOk sch = true) (hd : dbOk db = true)
-    (fuel : Nat) (root : Str) (e : Expr) (f : RCond) (p : Plan)
+    (hk : keysOk sch db = true) (fuel : Nat) (root : Str) (e : Expr) (f : RCond) (p : Plan)
     (he : elabR kindOf none e = some f) (hp : djPlan sch kindOf fuel root e = .ok p)
     (r : Row) (hr : r ∈ db.table root) (hc : lambdaClean sch db root r f = true)
     (hns : lamVarsPlain e = true) (hdef : (evalR sch db root r f).isSome = true) :
     evalR sch db root r f = some (evalDjPlan sch db root r p) :=
-  dj_core sch kindOf db (schOk_of_schemaOk sch hs) (idsOk_of_dbOk db hd) fuel root e f p hns he hp r hr hc hdef
+  dj_core sch kindOf db (schOk_of_schemaOk sch hs) (idsOk_of_dbOk db hd) (keysOk_prop sch db hk) fuel root e f p hns he hp r hr hc hdef
 
-/-- MAIN THEOREM (C04, SQLAlchemy): in particular the result is never `none` — every navigated path is joined -/
-theorem sa_sound_partial (sch : Schema) (kindOf : Str → Option ColK) (db : DB) (_hs : schemaOk sch = true) (hd : dbOk db = true)
-    (fuel : Nat) (root : Str) (e : Expr) (f : RCond) (p : SaPlan)
+/-- MAIN THEOREM (C04, SQLAlchemy): in particular the result is never `none` — every navigated path is joined.
+    (`_hs`, `_hd` are not used: `rel.any` is evaluated on the parent's own related rows, no primary key is compared) -/
+theorem sa_sound_partial (sch : Schema) (kindOf : Str → Option ColK) (db : DB) (_hs : schemaOk sch = true) (_hd : dbOk db = true)
+    (hk : keysOk sch db = true) (fuel : Nat) (root : Str) (e : Expr) (f : RCond) (p : SaPlan)
     (he : elabR kindOf none e = some f) (hp : saPlan sch kindOf fuel root e = .ok p)
     (r : Row) (_hr : r ∈ db.table root) (hc : lambdaClean sch db root r f = true)
     (hns : lamVarsPlain e = true) (hdef : (evalR sch db root r f).isSome = true) :
@@ -124,7 +219,7 @@ theorem sa_sound_partial (sch : Schema) (kindOf : Str → Option ColK) (db : DB)
     obtain ⟨j, q⟩ := jp
     simp only [hq, Except.map, Except.ok.injEq] at hp
     subst hp
-    exact sa_core sch kindOf db (idsOk_of_dbOk db hd) fuel root e f j q hns he hq r hc hdef j (fun _ hx => hx)
+    exact sa_core sch kindOf db (keysOk_prop sch db hk) fuel root e f j q hns he hq r hc hdef j (fun _ hx => hx)
 
 /-- both ORMs agree on every filter both translate (the ORIGINAL statement: it needs neither `hns` nor `hdef` — nor `he`, `hc`:
     the two plans are compared directly, `agree_core`) -/
@@ -145,20 +240,20 @@ theorem orms_agree (sch : Schema) (kindOf : Str → Option ColK) (db : DB) (hs :
 
 /-! the same with the STATIC well-formedness condition `relTyped` in place of `hdef` -/
 theorem dj_sound_typed (sch : Schema) (kindOf : Str → Option ColK) (db : DB) (hs : schemaOk sch = true) (hd : dbOk db = true)
-    (fuel : Nat) (root : Str) (e : Expr) (f : RCond) (p : Plan)
+    (hk : keysOk sch db = true) (fuel : Nat) (root : Str) (e : Expr) (f : RCond) (p : Plan)
     (he : elabR kindOf none e = some f) (hp : djPlan sch kindOf fuel root e = .ok p)
     (r : Row) (hr : r ∈ db.table root) (hc : lambdaClean sch db root r f = true)
     (hns : lamVarsPlain e = true) (ht : relTyped sch root f = true) :
     evalR sch db root r f = some (evalDjPlan sch db root r p) :=
-  dj_sound_partial sch kindOf db hs hd fuel root e f p he hp r hr hc hns (relTyped_isSome sch db f root r ht)
+  dj_sound_partial sch kindOf db hs hd hk fuel root e f p he hp r hr hc hns (relTyped_isSome sch db f root r ht)
 
 theorem sa_sound_typed (sch : Schema) (kindOf : Str → Option ColK) (db : DB) (hs : schemaOk sch = true) (hd : dbOk db = true)
-    (fuel : Nat) (root : Str) (e : Expr) (f : RCond) (p : SaPlan)
+    (hk : keysOk sch db = true) (fuel : Nat) (root : Str) (e : Expr) (f : RCond) (p : SaPlan)
     (he : elabR kindOf none e = some f) (hp : saPlan sch kindOf fuel root e = .ok p)
     (r : Row) (hr : r ∈ db.table root) (hc : lambdaClean sch db root r f = true)
     (hns : lamVarsPlain e = true) (ht : relTyped sch root f = true) :
     evalSaPlan sch db p.joins root r p.clause = evalR sch db root r f :=
-  sa_sound_partial sch kindOf db hs hd fuel root e f p he hp r hr hc hns (relTyped_isSome sch db f root r ht)
+  sa_sound_partial sch kindOf db hs hd hk fuel root e f p he hp r hr hc hns (relTyped_isSome sch db f root r ht)
 
 /-! ### the original statements and their counterexamples -/
 
@@ -221,13 +316,128 @@ def okE : Expr :=
 def okLeaf : BoolE := .cmpI .eq (.col (T "n")) (.lit false (T "1"))
 example : evalR vSchema cx2Db (T "p") cx2R cx2F =
     some (evalDjPlan vSchema cx2Db (T "p") cx2R (.exists_ (T "k") [T "p"] (some (.leaf okLeaf)))) :=
-  dj_sound_partial vSchema vKind cx2Db (by decide +kernel) (by decide +kernel) 2 (T "p") okE cx2F _ rfl rfl cx2R
+  dj_sound_partial vSchema vKind cx2Db (by decide +kernel) (by decide +kernel) (by decide +kernel) 2 (T "p") okE cx2F _ rfl rfl cx2R
     (by decide +kernel) (by decide +kernel) (by decide +kernel) (by decide +kernel)
 example : evalSaPlan vSchema cx2Db [] (T "p") cx2R (.exists_ (T "k") [T "kids"] (some (.leaf okLeaf))) =
     evalR vSchema cx2Db (T "p") cx2R cx2F :=
-  sa_sound_partial vSchema vKind cx2Db (by decide +kernel) (by decide +kernel) 2 (T "p") okE cx2F
+  sa_sound_partial vSchema vKind cx2Db (by decide +kernel) (by decide +kernel) (by decide +kernel) 2 (T "p") okE cx2F
     ⟨[], .exists_ (T "k") [T "kids"] (some (.leaf okLeaf))⟩ rfl rfl cx2R
     (by decide +kernel) (by decide +kernel) (by decide +kernel) (by decide +kernel)
+
+/-! ### natural keys: `keysOk` is necessary, and the theorems are not vacuous on a natural-key relation -/
+
+/-- `dj_sound_partial` without `keysOk` (all other hypotheses kept) -/
+def DjSoundNoKeys : Prop :=
+  ∀ (sch : Schema) (kindOf : Str → Option ColK) (db : DB) (_ : schemaOk sch = true) (_ : dbOk db = true)
+    (fuel : Nat) (root : Str) (e : Expr) (f : RCond) (p : Plan)
+    (_ : elabR kindOf none e = some f) (_ : djPlan sch kindOf fuel root e = .ok p)
+    (r : Row) (_ : r ∈ db.table root) (_ : lambdaClean sch db root r f = true)
+    (_ : lamVarsPlain e = true) (_ : (evalR sch db root r f).isSome = true),
+    evalR sch db root r f = some (evalDjPlan sch db root r p)
+/-- `sa_sound_partial` without `keysOk` (all other hypotheses kept) -/
+def SaSoundNoKeys : Prop :=
+  ∀ (sch : Schema) (kindOf : Str → Option ColK) (db : DB) (_ : schemaOk sch = true) (_ : dbOk db = true)
+    (fuel : Nat) (root : Str) (e : Expr) (f : RCond) (p : SaPlan)
+    (_ : elabR kindOf none e = some f) (_ : saPlan sch kindOf fuel root e = .ok p)
+    (r : Row) (_ : r ∈ db.table root) (_ : lambdaClean sch db root r f = true)
+    (_ : lamVarsPlain e = true) (_ : (evalR sch db root r f).isSome = true),
+    evalSaPlan sch db p.joins root r p.clause = evalR sch db root r f
+
+/-- counterexample 3: `a.b → b` references the natural key `b.number`, which is NOT unique: two rows of `b` carry number 5.
+    `b/cs/any()` on the row of `a` with bn = 5: the specification follows the to-one step to THE related row (the first one, id 1,
+    which has no `cs`): false; both ORMs join every row of `b` with number 5, and the one with id 2 has a `cs` row: true.
+    Primary keys are unique in every table (`dbOk`), the schema is closed under inverses (`schemaOk`). -/
+def cx3Sch : Schema :=
+  [ ⟨T "a", T "b", T "b", .toOne (T "bn") (T "number")⟩, ⟨T "b", T "as", T "a", .toMany (T "bn") (T "number")⟩,
+    ⟨T "b", T "cs", T "c", .toMany (T "b_id") (T "id")⟩, ⟨T "c", T "b", T "b", .toOne (T "b_id") (T "id")⟩ ]
+def cx3Db : DB :=
+  [ (T "a", [[(T "id", .int 1), (T "bn", .int 5)]]),
+    (T "b", [[(T "id", .int 1), (T "number", .int 5)], [(T "id", .int 2), (T "number", .int 5)]]),
+    (T "c", [[(T "id", .int 1), (T "b_id", .int 2)]]) ]
+def cx3R : Row := [(T "id", .int 1), (T "bn", .int 5)]
+def cx3E : Expr := .coll (.attr (.ident ⟨T "b", []⟩) (T "cs")) .any .none
+def cx3F : RCond := .nonEmpty [T "b"] (T "cs")
+
+example : keysOk cx3Sch cx3Db = false := by decide +kernel
+
+theorem dj_sound_false_without_keysOk : ¬ DjSoundNoKeys := by
+  intro H
+  have := H cx3Sch vKind cx3Db (by decide +kernel) (by decide +kernel) 1 (T "a") cx3E cx3F
+    (.exists_ (T "c") [T "b", T "as"] none) rfl rfl cx3R (by decide +kernel) (by decide +kernel) (by decide +kernel)
+    (by decide +kernel)
+  revert this
+  decide +kernel
+
+theorem sa_sound_false_without_keysOk : ¬ SaSoundNoKeys := by
+  intro H
+  have := H cx3Sch vKind cx3Db (by decide +kernel) (by decide +kernel) 1 (T "a") cx3E cx3F
+    ⟨[[T "b"]], .exists_ (T "c") [T "b", T "cs"] none⟩ rfl rfl cx3R (by decide +kernel) (by decide +kernel) (by decide +kernel)
+    (by decide +kernel)
+  revert this
+  decide +kernel
+
+/-- … whereas the two ORMs still agree with each other on it (`orms_agree` needs no `keysOk`): both answer true -/
+example : evalSaPlan cx3Sch cx3Db [[T "b"]] (T "a") cx3R (.exists_ (T "c") [T "b", T "cs"] none) =
+    some (evalDjPlan cx3Sch cx3Db (T "a") cx3R (.exists_ (T "c") [T "b", T "as"] none)) :=
+  orms_agree cx3Sch vKind cx3Db (by decide +kernel) (by decide +kernel) 1 (T "a") cx3E cx3F _
+    ⟨[[T "b"]], .exists_ (T "c") [T "b", T "cs"] none⟩ rfl rfl rfl cx3R (by decide +kernel) (by decide +kernel)
+
+/-- non-vacuity on the NATURAL-KEY relation of `vSchema` (`p.dept → d` keyed on `d.number`, inverse `d.emps`), with id ≠ number:
+    department id 1 has number 7, department id 2 has number 1; employee 5 has dn = 1, i.e. belongs to department NUMBER 1
+    (id 2), not to the department whose ID is 1 -/
+def nkDb : DB :=
+  [ (T "d", [[(T "id", .int 1), (T "number", .int 7), (T "title", .str (T "x"))],
+             [(T "id", .int 2), (T "number", .int 1), (T "title", .str (T "y"))]]),
+    (T "p", [[(T "id", .int 3), (T "dn", .int 7), (T "n", .int 1)], [(T "id", .int 4), (T "dn", .int 7), (T "n", .int 2)],
+             [(T "id", .int 5), (T "dn", .int 1), (T "n", .int 2)], [(T "id", .int 6), (T "dn", .null), (T "n", .int 1)]]) ]
+def nkD1 : Row := [(T "id", .int 1), (T "number", .int 7), (T "title", .str (T "x"))]
+def nkD2 : Row := [(T "id", .int 2), (T "number", .int 1), (T "title", .str (T "y"))]
+def nkP4 : Row := [(T "id", .int 4), (T "dn", .int 7), (T "n", .int 2)]
+def nkP5 : Row := [(T "id", .int 5), (T "dn", .int 1), (T "n", .int 2)]
+/-- `emps/any(x: x/n eq 1)` on `d` -/
+def nkE1 : Expr :=
+  .coll (.ident ⟨T "emps", []⟩) .any
+    (.some ⟨T "x", []⟩ (.compare .eq (.attr (.ident ⟨T "x", []⟩) (T "n")) (.lit .int (T "1"))))
+def nkF1 : RCond := .any [] (T "emps") (.scalar okLeaf)
+/-- `dept/emps/all(x: x/n eq 2)` on `p`: a to-one step over the natural key, then the collection keyed on it -/
+def nkE2 : Expr :=
+  .coll (.attr (.ident ⟨T "dept", []⟩) (T "emps")) .all
+    (.some ⟨T "x", []⟩ (.compare .eq (.attr (.ident ⟨T "x", []⟩) (T "n")) (.lit .int (T "2"))))
+def nkLeaf2 : BoolE := .cmpI .eq (.col (T "n")) (.lit false (T "2"))
+def nkF2 : RCond := .all [T "dept"] (T "emps") (.scalar nkLeaf2)
+
+example : keysOk vSchema nkDb = true := by decide +kernel
+-- Django, `emps/any(x: x/n eq 1)`: true for department id 1 (number 7: employees 3, 4), false for department id 2 (employee 5)
+example : evalR vSchema nkDb (T "d") nkD1 nkF1 =
+    some (evalDjPlan vSchema nkDb (T "d") nkD1 (.exists_ (T "p") [T "dept"] (some (.leaf okLeaf)))) :=
+  dj_sound_partial vSchema vKind nkDb (by decide +kernel) (by decide +kernel) (by decide +kernel) 2 (T "d") nkE1 nkF1 _ rfl rfl
+    nkD1 (by decide +kernel) (by decide +kernel) (by decide +kernel) (by decide +kernel)
+example : evalR vSchema nkDb (T "d") nkD1 nkF1 = some .tt ∧ evalR vSchema nkDb (T "d") nkD2 nkF1 = some .ff := by
+  decide +kernel
+example : evalSaPlan vSchema nkDb [] (T "d") nkD2 (.exists_ (T "p") [T "emps"] (some (.leaf okLeaf))) =
+    evalR vSchema nkDb (T "d") nkD2 nkF1 :=
+  sa_sound_partial vSchema vKind nkDb (by decide +kernel) (by decide +kernel) (by decide +kernel) 2 (T "d") nkE1 nkF1
+    ⟨[], .exists_ (T "p") [T "emps"] (some (.leaf okLeaf))⟩ rfl rfl nkD2
+    (by decide +kernel) (by decide +kernel) (by decide +kernel) (by decide +kernel)
+-- `dept/emps/all(x: x/n eq 2)`: false for employee 4 (department number 7 also has employee 3 with n = 1), true for employee 5
+example : evalR vSchema nkDb (T "p") nkP4 nkF2 =
+    some (evalDjPlan vSchema nkDb (T "p") nkP4 (.notExistsNot (T "p") [T "dept", T "emps"] (.leaf nkLeaf2))) :=
+  dj_sound_partial vSchema vKind nkDb (by decide +kernel) (by decide +kernel) (by decide +kernel) 2 (T "p") nkE2 nkF2 _ rfl rfl
+    nkP4 (by decide +kernel) (by decide +kernel) (by decide +kernel) (by decide +kernel)
+example : evalSaPlan vSchema nkDb [[T "dept"]] (T "p") nkP5 (.notExistsNot (T "p") [T "dept", T "emps"] (.leaf nkLeaf2)) =
+    evalR vSchema nkDb (T "p") nkP5 nkF2 :=
+  sa_sound_partial vSchema vKind nkDb (by decide +kernel) (by decide +kernel) (by decide +kernel) 2 (T "p") nkE2 nkF2
+    ⟨[[T "dept"]], .notExistsNot (T "p") [T "dept", T "emps"] (.leaf nkLeaf2)⟩ rfl rfl nkP5
+    (by decide +kernel) (by decide +kernel) (by decide +kernel) (by decide +kernel)
+example : evalR vSchema nkDb (T "p") nkP4 nkF2 = some .ff ∧ evalR vSchema nkDb (T "p") nkP5 nkF2 = some .tt := by
+  decide +kernel
+-- `reverse_reaches` on the natural-key relation: from employee 5, `dept` reaches the department whose PRIMARY key is 2 …
+example : reachesBack vSchema nkDb (T "p") nkP5 [T "dept"] 2 = (rowsVia vSchema nkDb (T "d") nkD2 [T "emps"]).contains nkP5 :=
+  reverse_reaches vSchema nkDb (by decide +kernel) (by decide +kernel) (T "d") [T "emps"] [T "dept"] (T "p") rfl nkD2 nkP5 2
+    (by decide +kernel) (by decide +kernel) rfl
+-- … and not the one whose primary key equals the foreign-key VALUE 1
+example : reachesBack vSchema nkDb (T "p") nkP5 [T "dept"] 2 = true ∧ reachesBack vSchema nkDb (T "p") nkP5 [T "dept"] 1 = false := by
+  decide +kernel
 
 /-- the verification schema satisfies the schema hypothesis -/
 theorem vSchema_ok : schemaOk vSchema = true := by decide +kernel
